@@ -54,6 +54,19 @@ fn main() {
             let r = Filter::try_from(s.as_str());
             println!("RESULT filter {}", match r { Ok(f) => format!("ok {f}"), Err(e) => format!("err {e}") });
         }
+        // ---- C02/C05: Number through serde_json and back; exit 3 = value or kind changed
+        "json-number" => {
+            let v = args[2].parse::<f64>().unwrap();
+            let n = match args.get(3) { Some(u) => Value::make_number_unit(v, libhaystack::units::get_unit(u).expect("unit")), None => Value::make_number(v) };
+            let j = serde_json::to_string(&n).unwrap();
+            let back = serde_json::from_str::<Value>(&j);
+            let same = match (&back, &n) {
+                (Ok(Value::Number(b)), Value::Number(a)) => (b.value.to_bits() == a.value.to_bits() || (a.value.is_nan() && b.value.is_nan())) && b.unit == a.unit,
+                _ => false,
+            };
+            println!("RESULT json-number {v:e} -> {j} -> {back:?} same={same}");
+            if !same { std::process::exit(3); }
+        }
         // ---- C12: equality / hash / order laws on the real impls; exit 3 = a law is violated
         "number-laws" | "number-hash" => {
             let f = |i: usize| args[i].parse::<f64>().unwrap();
